@@ -65,7 +65,7 @@ var strPool = []string{
 
 var wordPool = []string{"alpha", "beta", "gamma", "delta", "eps", "zeta", "eta", "theta", "iota", "kappa", "p", "q", "r"}
 
-var extraKeys = []string{"h", "i", "j", "k", "m", "n", "name", "spec", "items", "meta", "val", "on", "key with space", "0", "null", "a.b"}
+var extraKeys = []string{"h", "i", "j", "k", "m", "n", "name", "spec", "items", "meta", "val", "on", "key with space", "0", "null", "a.b", "", "名前", "ключ", "é", "-", "_", "1a", "a-b", "$x", "~"}
 
 func isPlainSafe(s string) bool {
 	if s == "" {
